@@ -69,7 +69,8 @@ T_Exit == /\ IsEvent("exit")
              /\ IF t \in Client
                 THEN G("exit.client." \o cli[t].op, cli[t].stage = "idle" /\ E.how = "ready")
                 ELSE IF t \in DOMAIN tmr
-                THEN G(IF act[tmr[t].a].rtaken > 0 /\ tmr[t].inc = act[tmr[t].a].inc THEN "exit.timer.afterrestart" ELSE "exit.timer",
+                THEN G(IF act[tmr[t].a].rtaken > 0 /\ tmr[t].inc = act[tmr[t].a].inc THEN "exit.timer.afterrestart"
+                       ELSE IF ~Terminated(tmr[t].a) /\ LiveH(tmr[t].a, StrongKinds) THEN "exit.timer.alive" ELSE "exit.timer",
                        tmr[t].st = "ended" /\ E.how = "ready")
                 ELSE /\ G(IF t \in Actor /\ act[t].pc = "idle" /\ act[t].mq = <<>> /\ ~ChanOpen(t) THEN "exit.loop.closed"      \* left without stopped() after the last drop
                           ELSE IF t \in Actor /\ act[t].pc \in {"stopping", "finishing"} THEN (IF act[t].stream THEN "exit.loop.callback.stream" ELSE "exit.loop.callback")
